@@ -131,13 +131,13 @@ pub fn small_scope() -> Vec<Case> {
     out
 }
 
-/// long texts: the same comparison on inputs of 3 000 … 150 000 characters (flat and wide,
+/// long texts: the same comparison on inputs of 3 000 … 100 000 characters (flat and wide,
 /// deeply nested, one long name, many decorations are all ordinary values, only large)
 pub fn long_texts(thorough: bool) -> Vec<Case> {
     // the lexical parser's cost grows with the square of the length (≈ 2.5 s at 20 000 and
     // ≈ 35 s at 70 000 characters), so the quick tier has one 70 000-character case only
     let mut out = vec![];
-    let targets: &[usize] = if thorough { &[3_000, 20_000, 70_000, 150_000] } else { &[3_000, 20_000, 70_000] };
+    let targets: &[usize] = if thorough { &[3_000, 20_000, 70_000, 100_000] } else { &[3_000, 20_000, 70_000] };
     for fi in 0..3usize {
         for &t in targets {
             let big = t > 20_000;
@@ -206,7 +206,7 @@ pub fn streams() -> Vec<Box<dyn AnyStream>> {
 
 pub const PROP: Prop = Prop {
     id: "C03",
-    rule: "cases = (format, well-formed enum value, source, tape): the text is the enum formatter's output, the lexical formatter's output for the arity-valid lexical mirror of the value (numbers also spelt `1.0` / `.5`, fixed stamps `+5`), or the value printed by the harness token printer with derived copulas (instance / property / instance-property / retrospective equivalence), padded intervals and decorated placeholders, spaced like the formatter's templates ; stream nested-pairs = C01's constructor-inside-constructor enumeration (formatter and sugared text); stream long-texts = wide / long-name / nested values printed to 3 000–70 000 characters (thorough: 150 000); oracle: enum parser and lexical-parse+fold both succeed, agree, and equal the source value's canonical form; non-trivial = the value's term is a compound or statement; distinct = fingerprint of (format, text)",
+    rule: "cases = (format, well-formed enum value, source, tape): the text is the enum formatter's output, the lexical formatter's output for the arity-valid lexical mirror of the value (numbers also spelt `1.0` / `.5`, fixed stamps `+5`), or the value printed by the harness token printer with derived copulas (instance / property / instance-property / retrospective equivalence), padded intervals and decorated placeholders, spaced like the formatter's templates ; stream nested-pairs = C01's constructor-inside-constructor enumeration (formatter and sugared text); stream long-texts = wide / long-name / nested values printed to 3 000–70 000 characters (thorough: 100 000); oracle: enum parser and lexical-parse+fold both succeed, agree, and equal the source value's canonical form; non-trivial = the value's term is a compound or statement; distinct = fingerprint of (format, text)",
     assumptions: &[
         "the sugar printer is trusted only when its plain rendition reproduces the formatter's output exactly for the same instance (otherwise the case is counted inconclusive)",
         "canonical form as in C01",
